@@ -271,7 +271,6 @@ func (s *Store) rawConcat(hi, lo *Term) *Term {
 	return s.mk(OpConcat, KBV, hi.w+lo.w, 0, 0, hi, lo)
 }
 
-
 // checkSame evaluates a and b on random assignments (debug aid).
 func (s *Store) checkSame(a, b *Term) {
 	if s.rng == nil {
